@@ -602,13 +602,34 @@ def rule_sample_count(eng, rep, A, rule="C02-6.sample-count"):
                         "sampling loop starts at %s with %d evaluation(s) before it: the point does not get the requested number of samples" % (start, len(pre)))
             # the only break in the loop is the budget guard
             nf = ekey(A.sink_arg(cis[0], A.nf_port))
-            for n, d in cfg.g.nodes(data=True):
-                if d.get("jump") == "break" and _in_loop(cfg, h, n):
-                    gs = [a for (_b, a) in guards_of(cfg, n)]
-                    if any(_relation(a, nf) == "nf>=max" for a in gs):
-                        rep.ok(rule, eng.where(fi, d["ast"]), "break of the sampling loop is control dependent on the budget guard")
+            # (a break / return leaves the loop, so it is not a node of the natural loop: membership is lexical -- innermost enclosing loop statement)
+            early = []
+
+            def lexical(stmts, inner):
+                for x in stmts:
+                    if isinstance(x, (ast.Break, ast.Return)) and not (inner and isinstance(x, ast.Break)):
+                        early.append(x)
+                    elif isinstance(x, (ast.For, ast.While)):
+                        lexical(x.body + x.orelse, True)
+                    elif isinstance(x, (ast.FunctionDef, ast.ClassDef)):
+                        continue
                     else:
-                        rep.bad(rule, eng.where(fi, d["ast"]), "%s|sampling-loop-break-not-budget" % fid, "sampling loop can stop early for a reason other than the budget")
+                        for f in ("body", "orelse", "finalbody"):
+                            lexical(getattr(x, f, []) or [], inner)
+                        for hd in getattr(x, "handlers", []) or []:
+                            lexical(hd.body, inner)
+            lexical(st.body, False)
+            nearly = 0
+            for x in early:
+                n = cfg.cfg_node(x)
+                nearly += 1
+                gs = [a for (_b, a) in guards_of(cfg, n)]
+                if any(_relation(a, nf) == "nf>=max" for a in gs):
+                    rep.ok(rule, eng.where(fi, x), "early exit of the sampling loop is control dependent on the budget guard")
+                else:
+                    rep.bad(rule, eng.where(fi, x), "%s|sampling-loop-break-not-budget" % fid, "sampling loop can stop early for a reason other than the budget: the point gets fewer samples than nsamples asked for")
+            if fid.endswith("evaluate_objective"):
+                rep.require_count(rule, "early exits of the sampling loop in %s" % fid, nearly, 1)
             # origin of the bound
             w = vfg.back([vfg.key_of(bound)], lambda s, k, i, d: k in ("copy", "default", "proj", "tup"))
             for leaf in sorted(w.leaves, key=str):
